@@ -1,5 +1,6 @@
 import Vata.Parse
 import Driver.NfaHist
+import Driver.TaHist
 import Vata.Proofs.LtsSim
 /-!
 # vdriver – the model side of the correspondence check
@@ -327,6 +328,7 @@ def dispatch (kind : String) (args res : List String) : Except String (Findings 
   | "rename" => checkRename args res
   | "nfah" => NfaHist.check args res
   | "lts" => checkLts args res
+  | "tah" => TaHist.check args res
   | _ => throw s!"unknown kind {kind}"
 
 def toks (line : String) : List String := (line.trimAscii.toString.splitOn " ").filter (· != "")
